@@ -66,7 +66,7 @@ let handle op args =
     if not (JsonWktValid.json_core2 s nm) then ["not-core"] else
     let (v, _) = Fam_msg.parse_value toks in
     let v = Fam_rt.norm_nan s 0 v in
-    let valid strict = JsonWktValid.json_valid2 strict (eu = "1") s nm (Lazy.force Fam_rt.fuel_nat) Datatypes.O v in
+    let valid strict = JsonWktValid.json_valid2 strict (eu = "1") s nm (Lazy.force Fam_rt.lim_nat) (Lazy.force Fam_rt.fuel_nat) Datatypes.O v in
     if valid true then ["v"] else if valid false then ["f11"] else ["nv"]
   | "enc", id :: bits :: toks ->
     let (s, nm) = table id in
